@@ -175,6 +175,17 @@ func (tt *TermTable) IntLit(v int64) *Term {
 }
 
 func (tt *TermTable) App(op string, s Sort, args ...*Term) *Term {
+	// canonical operand order for commutative operators over the reals and
+	// booleans, so that a*b and b*a are the same term (hash-consing then
+	// identifies e.g. the two dot products n0.n1 and n1.n0)
+	if len(args) == 2 && args[0].id > args[1].id {
+		switch {
+		case (op == "+" || op == "*") && s.K == SReal,
+			op == "=" && args[0].sort.K != SFP,
+			op == "and", op == "or":
+			args = []*Term{args[1], args[0]}
+		}
+	}
 	var sb strings.Builder
 	sb.WriteString("a:")
 	sb.WriteString(op)
